@@ -34,6 +34,7 @@ type Item struct {
 	C string `json:"c,omitempty"` // content descriptor "len:seed"
 	D bool   `json:"d,omitempty"` // hostile entry: directory attribute set; before: is a directory
 	B string `json:"b,omitempty"` // lex: second string
+	L bool   `json:"l,omitempty"` // hostile entry: symbolic-link mode bits set (its content "link:<target>" is the target text)
 }
 
 type Case struct {
@@ -55,6 +56,9 @@ type Case struct {
 // ---------------------------------------------------------------- contents
 
 func content(desc string) []byte {
+	if strings.HasPrefix(desc, "link:") { // the target text of a symbolic-link entry
+		return []byte(desc[5:])
+	}
 	parts := strings.SplitN(desc, ":", 2)
 	n, _ := strconv.Atoi(parts[0])
 	seed, _ := strconv.ParseUint(parts[1], 10, 64)
@@ -445,7 +449,9 @@ func writeArchive(path string, items []Item) {
 		if i%2 == 1 {
 			h.Method = zip.Store
 		}
-		if it.D {
+		if it.L {
+			h.SetMode(os.ModeSymlink | 0o777)
+		} else if it.D {
 			h.SetMode(os.ModeDir | 0o755)
 		} else if i%3 == 0 {
 			h.SetMode(0o644)
@@ -495,6 +501,9 @@ func runHostile(c *Case, s *hx.Sink, sb string) string {
 		if it.D {
 			s.Count("entry_dirattr")
 		}
+		if it.L {
+			s.Count("entry_symlink_mode")
+		}
 	}
 	snapDir := filepath.Join(sb, "h")
 	must(os.MkdirAll(snapDir, 0o755))
@@ -513,6 +522,9 @@ func runHostile(c *Case, s *hx.Sink, sb string) string {
 	items := make([]Item, len(c.Items))
 	for i, it := range c.Items {
 		it.P = strings.ReplaceAll(it.P, "${ROOT}", snapDir)
+		if it.L {
+			it.C = strings.ReplaceAll(it.C, "${ROOT}", snapDir)
+		}
 		items[i] = it
 	}
 	for _, it := range items {
